@@ -414,6 +414,12 @@ func toolForErr[In, Out any](t *Tool, h ToolHandlerFor[In, Out], cache *SchemaCa
 				outval = elemZero
 			}
 		}
+		if outval == nil && outputResolved != nil && res.InputRequests == nil && !res.IsError {
+			// An output schema is declared and the handler (Out is an interface
+			// type) returned nothing: that is JSON null, to be judged by the
+			// schema like any other output, not a result without structured content.
+			outval = json.RawMessage("null")
+		}
 		if outval != nil {
 			outbytes, err := json.Marshal(outval)
 			if err != nil {
